@@ -9,6 +9,26 @@ from decimal import Decimal
 ID_BASE = 1000   # row identifiers are ints >= ID_BASE, never mapped
 
 
+class Unknown(str):
+    """What abs() returns for a delivered value that is no representative of the profile: never equal to an
+    abstract value (so the comparison with the specification fails and is reported as a violation, not as a
+    harness crash), hashable, JSON-serialisable, and ordered after everything else."""
+
+    def __lt__(self, other):
+        return isinstance(other, Unknown) and str.__lt__(self, other)
+
+    def __gt__(self, other):
+        return not isinstance(other, Unknown) or str.__gt__(self, other)
+
+    def __le__(self, other):
+        return self == other or self.__lt__(other)
+
+    def __ge__(self, other):
+        return self == other or self.__gt__(other)
+
+    __hash__ = str.__hash__
+
+
 class Profile(object):
     def __init__(self, name, ladder, variants=None):
         self.name = name
@@ -39,7 +59,10 @@ class Profile(object):
     def abs(self, v):
         if isinstance(v, int) and not isinstance(v, bool) and v >= ID_BASE:
             return v
-        return self._inv[self._k(v)]
+        k = self._k(v)
+        if k not in self._inv:
+            return Unknown('?unexpected value %s %s' % k)
+        return self._inv[k]
 
     def row(self, cells, occurrence=0):
         return [self.conc(c, occurrence + i) for i, c in enumerate(cells)]
